@@ -212,6 +212,9 @@ func sharedSteps(r *rt.Rand, tp *TaskPlan, n int) {
 				st.Headers = [][2]string{{"Depth", "0"}}
 			}
 		}
+		// (A listing of /shared itself is not generated: it reads what the other
+		// tasks are changing, so it is not a request on disjoint resources - the
+		// unchanged library answers it 404 when a member vanishes mid-walk.)
 		at := r.Intn(len(tp.Steps) + 1)
 		tp.Steps = append(tp.Steps[:at], append([]Step{st}, tp.Steps[at:]...)...)
 	}
